@@ -16,7 +16,7 @@ from typing import Any, Dict, FrozenSet, List, Optional, Set, Tuple
 
 from . import matrix
 from .efflib import VALUE_KINDS
-from .effvals import CV, DYN, FS, STRUCT, Val
+from .effvals import BOT, CV, DYN, FS, STRUCT, Val
 from .grammar import grammar
 from .model import AnalysisError, AnchorMissing, FuncNode, Repo, class_methods, dotted
 
@@ -128,7 +128,7 @@ class Engine:
             else:
                 self.ctx_count[fid] = n + 1
         if key in self.stable or self.done_round.get(key) == self.round:
-            return self.memo.get(key, (FS(), STRUCT))
+            return self.memo.get(key, (FS(), BOT))
         combos = self.split_args(cv, args) if not _sub else None
         if combos is not None:
             self.done_round[key] = self.round
@@ -142,16 +142,16 @@ class Engine:
                     self.why.setdefault((key, eff), self.why.get((ck, eff), ""))
                     self.srcs.setdefault((key, eff), set()).add(("ctx", ck, eff))
                 ret_u = r if ret_u is None else ret_u.join(r)
-            old = self.memo.get(key, (FS(), STRUCT))
+            old = self.memo.get(key, (FS(), BOT))
             ret_u = (ret_u or STRUCT).trim(2)
-            new = (frozenset(effs_u) | old[0], ret_u.join(old[1]).trim(2) if old[1] is not STRUCT else ret_u)
+            new = (frozenset(effs_u) | old[0], ret_u.join(old[1]).trim(2) if old[1] is not BOT else ret_u)
             if key not in self.memo or new[0] != old[0] or new[1].key() != old[1].key():
                 self.memo[key] = new
                 self.changed = True
             return self.memo[key]
         self.done_round[key] = self.round
         if key not in self.memo:
-            self.memo[key] = (FS(), STRUCT)
+            self.memo[key] = (FS(), BOT)
         from .effwalk import Walker
 
         w = Walker(self, cv, args, kwargs, key)
@@ -159,7 +159,7 @@ class Engine:
         ret = ret.trim(2)
         self.functions_analysed.add(f"{fid[0]}.{fid[1]}")
         old = self.memo[key]
-        new = (frozenset(effs) | old[0], ret.join(old[1]).trim(2) if old[1] is not STRUCT else ret)
+        new = (frozenset(effs) | old[0], ret.join(old[1]).trim(2) if old[1] is not BOT else ret)
         if new[0] != old[0] or new[1].key() != old[1].key():
             self.memo[key] = new
             self.changed = True
